@@ -247,6 +247,9 @@ func (c *Channel) Invoke(ctx context.Context, method string, req, resp interface
 	codec := func(out interface{}) error {
 		return cloner.Copy(out, reqCopy)
 	}
+	// what ClientContext hands out to the handler is the caller's context, not
+	// the child below, which ends as soon as Invoke returns
+	clientCtx := ctx
 	ctx, cancel := context.WithCancel(ctx)
 	sts := internal.UnaryServerTransportStream{Name: method}
 
@@ -261,7 +264,7 @@ func (c *Channel) Invoke(ctx context.Context, method string, req, resp interface
 			verifAt("unary.server.before-close", ctx)
 			close(ch)
 		}()
-		ctx := grpc.NewContextWithServerTransportStream(makeServerContext(ctx), &sts)
+		ctx := grpc.NewContextWithServerTransportStream(makeServerContextFor(ctx, clientCtx), &sts)
 		verifAt("unary.server.start", ctx)
 		v, err := md.Handler(handler, ctx, codec, c.unaryInterceptor)
 		if h := sts.GetHeaders(); len(h) > 0 {
@@ -422,6 +425,12 @@ func (c *Channel) NewStream(ctx context.Context, desc *grpc.StreamDesc, method s
 var clientContextKey = "holds a client context"
 
 func makeServerContext(ctx context.Context) context.Context {
+	return makeServerContextFor(ctx, ctx)
+}
+
+// makeServerContextFor makes a server context that is a child of ctx and
+// that reports clientCtx (ctx or an ancestor of it) as the client context.
+func makeServerContextFor(ctx, clientCtx context.Context) context.Context {
 	// We don't want the server have any of the values in the client's context
 	// since that can inadvertently leak state from the client to the server.
 	// But we do want a child context, just so that request deadlines and client
@@ -432,7 +441,7 @@ func makeServerContext(ctx context.Context) context.Context {
 		newCtx = metadata.NewIncomingContext(newCtx, meta)
 	}
 	newCtx = peer.NewContext(newCtx, &inprocessPeer)
-	newCtx = context.WithValue(newCtx, &clientContextKey, ctx)
+	newCtx = context.WithValue(newCtx, &clientContextKey, clientCtx)
 	return newCtx
 }
 
